@@ -3,7 +3,7 @@
     [replay_disagreements cases = []] iff in every case every replay's trace EQUALS the reference trace
     (all ten observed fields of every operation, including the application hash after every block). *)
 From Coq Require Import List String NArith Bool Lia.
-From Teleport Require Import Base.Bytes Model.DeterminismCheck.
+From Teleport Require Import Model.ReplayCheck.
 Import ListNotations.
 
 Lemma obs_diff_0 (a b : obs) : obs_diff a b = 0 <-> a = b.
